@@ -293,6 +293,19 @@ def boundary_comparisons(ck, prog):
         if not ref:
             continue
         cur = comparison_profile(f)
+        # a comparison against one named constant replaced by a comparison against another one
+        def total(v):
+            return sum(v.values()) if isinstance(v, dict) else len(v)
+        rc = {k: total(v) for k, v in ref.items()}
+        cc = {k: sum(len(ls) for ls in v.values()) for k, v in cur.items()}
+        gone = {k: rc[k] - cc.get(k, 0) for k in rc if rc[k] > cc.get(k, 0)}
+        fresh = {k: cc[k] - rc.get(k, 0) for k in cc if cc[k] > rc.get(k, 0)}
+        if gone and fresh and sum(gone.values()) == sum(fresh.values()):
+            n += 1
+            line = min(l for k in fresh for ls in cur[k].values() for l in ls)
+            r.violation('%s:%s->%s' % (f.name, ','.join(sorted(gone)), ','.join(sorted(fresh))), f.name, f.file, line,
+                        '%s now compares with %s where the reference tree compares with %s' % (
+                            f.name, ', '.join(sorted(fresh)), ', '.join(sorted(gone))))
         for name, classes in cur.items():
             if name not in ref:
                 continue
@@ -794,6 +807,28 @@ def stored_constants_profile(f):
     return out
 
 
+def case_partition(f):
+    """sorted list of label groups: case labels of f's switches that share their first statement (labels written one
+    after the other, or an empty case running into the next one).  Keyed by the switch block."""
+    groups = {}
+    for bid, blk in f.blocks.items():
+        cs = blk.get('case')
+        if not cs:
+            continue
+        cur = blk
+        seen = set()
+        while cur['id'] not in seen:
+            seen.add(cur['id'])
+            if cur['events'] or cur.get('term') is not None or len(cur['succs']) != 1:
+                break
+            nxt = f.blocks.get(cur['succs'][0])
+            if nxt is None:
+                break
+            cur = nxt
+        groups.setdefault(cur['id'], []).append(cs[0])
+    return sorted(sorted(g) for g in groups.values())
+
+
 def fallthrough_profile(f):
     """sorted list of 'a->b': a case block that has statements of its own and runs into the next case label"""
     out = []
@@ -907,7 +942,21 @@ def more_profiles(ck, prog):
         if 'F' in ref:
             nf += 1
             cf = fallthrough_profile(f)
-            if cf != ref['F'] and any(b.get('case') for b in f.blocks.values()):
+            merged = []
+            if 'P' in ref:
+                refp = [set(g) for g in ref['P']]
+                curp = [set(g) for g in case_partition(f)]
+                common = set().union(*refp) & (set().union(*curp) if curp else set()) if refp else set()
+                a = sorted(sorted(g & common) for g in refp if g & common)
+                b2 = sorted(sorted(g & common) for g in curp if g & common)
+                if a != b2:
+                    merged = [g for g in b2 if g not in a]
+            if merged:
+                rf.violation('%s:case-groups' % f.name, f.name, f.file, f.line,
+                             'case labels are grouped differently from the reference tree: %s now share one body (a '
+                             '`break` was lost or added between them)' % '; '.join(
+                                 '{%s}' % ', '.join(chr(x) if 32 < x < 127 else str(x) for x in g) for g in merged[:3]))
+            elif cf != ref['F'] and any(b.get('case') for b in f.blocks.values()):
                 extra = sorted(set(cf) - set(ref['F']))
                 missing = sorted(set(ref['F']) - set(cf))
                 rf.violation('%s:fall-through' % f.name, f.name, f.file, f.line,
